@@ -48,7 +48,11 @@ def judge_prog(req, impl, model, spec, focus=None):
         what = "values differ from the specification: impl %s vs spec %s" % (d[0][-80:], d[1][-80:])
     elif (not iacc) and m and m.group(1) not in ("none",) and m.group(2) != "-":
         # a single injected fault: the diagnostics must name the wire concerned (C09)
-        if focus == "names" and m.group(2) not in impl:
+        # only when the injected fault is the program's only fault (the generated base program may itself
+        # contain e.g. a constant dividing by zero, which an earlier checking stage reports first)
+        sfaults = spec.split(" ")[1:] if spec.startswith("rej") else []
+        single = bool(sfaults) and all(f.endswith(":" + m.group(2)) for f in sfaults if f != "-")
+        if focus == "names" and single and m.group(2) not in impl:
             oracle = False
             what = "rejected, but no diagnostic names the injected wire %s: %s" % (m.group(2), impl[:200])
     if verdict == "sched-INVALID":
